@@ -382,7 +382,13 @@ sqf::runtime::runtime::result sqf::runtime::runtime::execute(sqf::runtime::runti
                 {
                     m_context_active = m_contexts[i];
                     SQFVM_VERIF_EVENT(slice_begin, *this);
-                    if (m_context_active->suspended())
+                    if (m_context_active->terminate())
+                    { // terminated script: nothing of it runs any more, it is dropped at this scheduling point
+                        m_context_active->clear_frames();
+                        m_context_active->clear_values(true);
+                        res = result::empty;
+                    }
+                    else if (m_context_active->suspended())
                     {
                         if (m_context_active->wakeup_timestamp() <= std::chrono::system_clock::now())
                         {
